@@ -117,6 +117,10 @@ func c04case(c GCase, a *run.Acc, variant int) {
 		a.Count("inconclusive:reference budget", 1)
 		return
 	}
+	if rfe.Grey {
+		a.Count("inconclusive:a typed terminal met a spelling its documented syntax is silent about", 1)
+		return
+	}
 	accepts := false
 	for _, e := range rfe.Ends(c.NT, 0) {
 		if e == len(c.In) {
@@ -190,6 +194,9 @@ func c04plan(tier string, seed int64) []run.Job {
 		// hidden left recursion behind nullable prefixes of every result-list layout (zero-width alternative first / last / repeated)
 		jobs = append(jobs, run.Job{Family: "hidden", Seed: seed*100000 + 55000 + int64(i), N: per / 4, P: map[string]int{"inputs": 6, "maxlen": 9}})
 		jobs = append(jobs, run.Job{Family: "strings", Seed: seed*100000 + 58000 + int64(i), N: per / 4, P: map[string]int{"inputs": 6}})
+		// token-level grammars over the typed terminals (integer, float, bool, nil, char, duration, word, regexp), every
+		// token trimmed one way or another, whitespace in front of the end of input
+		jobs = append(jobs, run.Job{Family: "typed", Seed: seed*100000 + 59000 + int64(i), N: per / 2, P: map[string]int{"inputs": 6}})
 		// SuppressError around half of the references and an eighth of the other sub-expressions: acceptance is unchanged by it
 		jobs = append(jobs, run.Job{Family: "mutual", Seed: seed*100000 + 51000 + int64(i), N: per / 4, P: map[string]int{"inputs": 6, "maxlen": 10, "suppress": 1}})
 		jobs = append(jobs, run.Job{Family: "random", Seed: seed*100000 + 53000 + int64(i), N: per / 4, P: map[string]int{"strat": 1, "maxlen": 8, "inputs": 6, "suppress": 1}})
